@@ -16,8 +16,9 @@
 (*                                                                         *)
 (* Numbers: TLC integers are 32 bit, so a literal is carried as            *)
 (* Min(value, NumCap); literals that do not fit the implementation's       *)
-(* usize (> 18446744073709551615) and digit runs containing a non-ASCII    *)
-(* digit are not numbers of the language: the text is rejected.            *)
+(* usize (> 18446744073709551615) are marked "loose" (rejecting them, as    *)
+(* the pinned code does, or reading them as that number are both fine);    *)
+(* digit runs containing a non-ASCII digit are not numbers: rejected.      *)
 (***************************************************************************)
 EXTENDS Naturals, Integers, Sequences, FiniteSets
 
@@ -96,32 +97,35 @@ CappedVal(ds, acc) ==
     IF ds = <<>> THEN acc
     ELSE LET a2 == acc * 10 + ds[1] IN CappedVal(Tail(ds), IF a2 > NumCap THEN NumCap ELSE a2)
 
-\* Tokenize returns [ok, toks]; ok = FALSE is the tokenizer's error (number not representable)
-RECURSIVE TokFrom(_, _, _)
-TokFrom(cs, p, acc) ==
-    IF p > Len(cs) THEN [ok |-> TRUE, toks |-> Append(acc, <<"eof">>)]
+\* Tokenize returns [ok, toks, loose]; ok = FALSE is the tokenizer's error (a digit run that is not a number).
+\* A literal beyond the implementation's usize is outside what the properties pin down: the pinned code reports an
+\* error, a saturating reader would accept it with the same meaning (every list is shorter).  Such a literal is
+\* tokenized as NumCap and the result is marked loose: the trace specifications then accept either outcome.
+RECURSIVE TokFrom(_, _, _, _)
+TokFrom(cs, p, acc, loose) ==
+    IF p > Len(cs) THEN [ok |-> TRUE, toks |-> Append(acc, <<"eof">>), loose |-> loose]
     ELSE LET k == SymAt(cs, p) IN
-    IF k # 0 THEN TokFrom(cs, p + Len(SymTab[k][1]), Append(acc, <<SymTab[k][2]>>))
+    IF k # 0 THEN TokFrom(cs, p + Len(SymTab[k][1]), Append(acc, <<SymTab[k][2]>>), loose)
     ELSE IF cs[p] \in DigitCh THEN
         LET q == RunEnd(cs, p, DigitCh) IN
-        IF \E i \in p..(q - 1) : cs[i] \notin AsciiDigit THEN [ok |-> FALSE, toks |-> acc]
+        IF \E i \in p..(q - 1) : cs[i] \notin AsciiDigit THEN [ok |-> FALSE, toks |-> acc, loose |-> loose]
         ELSE LET ds == [i \in 1..(q - p) |-> DigitVal(cs[p + i - 1])] IN
-             IF ~FitsUsize(ds) THEN [ok |-> FALSE, toks |-> acc]
-             ELSE TokFrom(cs, q, Append(acc, <<"num", CappedVal(ds, 0)>>))
+             IF ~FitsUsize(ds) THEN TokFrom(cs, q, Append(acc, <<"num", NumCap>>), TRUE)
+             ELSE TokFrom(cs, q, Append(acc, <<"num", CappedVal(ds, 0)>>), loose)
     ELSE IF cs[p] = "{" /\ RunEnd(cs, p + 1, WordCh) > p + 1
                        /\ RunEnd(cs, p + 1, WordCh) <= Len(cs) /\ cs[RunEnd(cs, p + 1, WordCh)] = "}" THEN
         LET q == RunEnd(cs, p + 1, WordCh) IN
-        TokFrom(cs, q + 1, Append(acc, <<"ref", Concat(cs, p + 1, q)>>))
+        TokFrom(cs, q + 1, Append(acc, <<"ref", Concat(cs, p + 1, q)>>), loose)
     ELSE IF cs[p] \in WordCh THEN
         LET q == RunEnd(cs, p, WordCh) IN
-        TokFrom(cs, q, Append(acc, KeywordTok(Concat(cs, p, q))))
+        TokFrom(cs, q, Append(acc, KeywordTok(Concat(cs, p, q))), loose)
     ELSE IF cs[p] = "\"" THEN
         LET q == RunEnd(cs, p + 1, {c \in {cs[i] : i \in 1..Len(cs)} : c # "\""}) IN
-        IF q <= Len(cs) THEN TokFrom(cs, q + 1, acc)      \* closed comment: skipped
-        ELSE TokFrom(cs, p + 1, acc)                      \* no closing quote: the quote is a separator
-    ELSE TokFrom(cs, p + 1, acc)                          \* any other character separates
+        IF q <= Len(cs) THEN TokFrom(cs, q + 1, acc, loose)      \* closed comment: skipped
+        ELSE TokFrom(cs, p + 1, acc, loose)                      \* no closing quote: the quote is a separator
+    ELSE TokFrom(cs, p + 1, acc, loose)                          \* any other character separates
 
-Tokenize(cs) == TokFrom(cs, 1, <<>>)
+Tokenize(cs) == TokFrom(cs, 1, <<>>, FALSE)
 
 ---------------------------------------------------------------------------
 (* grammar (no precedence, binary operators right associative)             *)
